@@ -6,6 +6,9 @@
 (*   call(tok, kind, fault, outcome, val)   outcome: ret | exc | comm |    *)
 (*        other | hang; val = token carried by the value / exception the   *)
 (*        caller got (0 = None, -1 = something else)                       *)
+(*   a fetch (the next item of an endless remote iterator opened on the    *)
+(*   same proxy) also carries pre/post = steps the server-side iterator    *)
+(*   had taken before / after it, and conn = the proxy was connected       *)
 (*   end(exec)   executions per token counted at the server, at quiescence *)
 (* Which communication error class is raised, and whether a faulted call   *)
 (* succeeds after a retry, is left open; everything the property states is *)
@@ -14,13 +17,13 @@
 EXTENDS Naturals, Sequences, TLC, Json, IOUtils
 Traces == JsonDeserialize(IOEnv.TRACE_FILE)
 NT == Len(Traces)
-VARIABLES t, l, dirty, bad
-vars == <<t, l, dirty, bad>>
+VARIABLES t, l, dirty, lost, bad
+vars == <<t, l, dirty, lost, bad>>
 Tr == Traces[t]
 R == Tr[1].retries
 Exec == Tr[Len(Tr)].exec
 Flag(c) == IF bad = "" THEN c ELSE bad
-Init == t \in 1..NT /\ l = 2 /\ dirty = FALSE /\ bad = ""
+Init == t \in 1..NT /\ l = 2 /\ dirty = FALSE /\ lost = FALSE /\ bad = ""
 
 \* retries apply to method calls only (batch submission and attribute access are single attempts)
 Reff(e) == IF e.kind \in {"normal", "raise", "oneway"} THEN R ELSE 0
@@ -31,6 +34,15 @@ CallCheck(e) ==
     IF e.outcome = "hang" THEN "C03.Hang"
     ELSE IF e.outcome = "other" THEN "C03.WrongError"
     ELSE IF x > 1 + Reff(e) THEN "C03.ExecBound"
+    ELSE IF e.kind = "fetch" THEN
+         \* the iterator never ends, so "exhausted" is an answer no invocation produced; an item must be the one this
+         \* very request made the iterator produce; "stream is gone" is the daemon's own answer once a connection was lost;
+         \* a fetch on a proxy that lost its connection (and was not reconnected by another call) fails without sending
+         IF e.outcome = "stop" THEN "C03.AnswerWithoutInvocation"
+         ELSE IF e.outcome = "ret" /\ (e.post # e.pre + 1 \/ e.val # e.post) THEN "C03.ForeignReply"
+         ELSE IF e.outcome = "exc" /\ clean /\ ~lost THEN "C03.Recovery"
+         ELSE IF e.outcome = "comm" /\ clean /\ e.conn = 1 THEN "C03.Recovery"
+         ELSE ""
     ELSE IF e.kind = "oneway" THEN
          IF e.outcome = "ret" /\ e.val # 0 THEN "C03.OnewayReturnedValue"
          ELSE IF x > 1 THEN "C03.OnewayRanTwice"
@@ -52,6 +64,8 @@ Step == /\ l < Len(Tr) /\ l' = l + 1 /\ t' = t
         /\ LET e == Tr[l] c == CallCheck(e) IN
            /\ bad' = IF c # "" THEN Flag(c) ELSE bad
            \* a duplicated reply that was delivered leaves the connection dirty for the next call; any failure releases it
+           \* a faulted call may have lost the connection even when a retry made it succeed
+           /\ lost' = (lost \/ e.fault # "none" \/ e.outcome \in {"comm", "hang"})
            /\ dirty' = IF e.kind = "oneway" /\ e.outcome = "ret" THEN dirty
                        ELSE (e.fault = "dup" /\ e.outcome \in {"ret", "exc"})
 Spec == Init /\ [][Step]_vars
